@@ -25,6 +25,9 @@ pub struct Case {
     /// 2 I/O error, 3 times out, 4 host unreachable
     #[serde(default)]
     pub mux_auth: u8,
+    /// HTTP/3 (quiche client, real QUIC listener, real time); `h2` is then ignored
+    #[serde(default)]
+    pub h3: bool,
 }
 
 pub struct ResponseSuite;
@@ -182,7 +185,7 @@ pub fn judge(c: &Case, obs: &Obs, events: &[Event]) -> Verdict {
     let exp = expected(c);
     let what = format!(
         "{} {} {} creds_valid={} outcome={:?}",
-        if c.h2 { "h2" } else { "h1" },
+        if c.h3 { "h3" } else if c.h2 { "h2" } else { "h1" },
         c.method,
         c.authority,
         c.creds_valid,
@@ -325,7 +328,9 @@ pub fn judge(c: &Case, obs: &Obs, events: &[Event]) -> Verdict {
         );
     }
     // timing: failures decided by the endpoint's own timer must arrive at the limit
-    if c.outcome == Outcome::Never && matches!(exp.egress, Egress::Tcp(_)) {
+    if c.h3 {
+        // real time: only "answered at all within the budget" (checked above)
+    } else if c.outcome == Outcome::Never && matches!(exp.egress, Egress::Tcp(_)) {
         ensure!(
             obs.after_ms >= ESTABLISHMENT_MS && obs.after_ms <= ESTABLISHMENT_MS + 1000,
             "timing:establishment-timeout",
@@ -362,7 +367,45 @@ pub fn request_of(c: &Case) -> Req {
     r
 }
 
+fn script(c: &Case) -> std::sync::Arc<Scripted> {
+    let outcome = c.outcome.clone();
+    let mut scripted = Scripted::new(move |_| outcome.clone());
+    if c.mux_fails {
+        let s = std::sync::Arc::get_mut(&mut scripted).unwrap();
+        s.udp_plan = || MuxPlan::Fail(std::io::Error::from(std::io::ErrorKind::AddrNotAvailable));
+        s.icmp_plan = || MuxPlan::NotConfigured;
+    }
+    {
+        use trusttunnel::verif::session::ConnErrView;
+        let s = std::sync::Arc::get_mut(&mut scripted).unwrap();
+        s.auth_plan = match c.mux_auth {
+            0 => || Ok(()),
+            1 => || Err(ConnErrView::Authentication("upstream rejects the credentials".into())),
+            2 => || Err(ConnErrView::Io(std::io::Error::from(std::io::ErrorKind::ConnectionRefused))),
+            3 => || Err(ConnErrView::Timeout),
+            _ => || Err(ConnErrView::HostUnreachable),
+        };
+    }
+    scripted
+}
+
 pub fn execute(c: &Case) -> (Obs, Vec<Event>) {
+    if c.h3 {
+        let spec = CoreSpec { establishment_timeout: Duration::from_millis(400), quic: true, ..CoreSpec::default() };
+        let c = c.clone();
+        return aio::block_on_real(async move {
+            let net = match crate::engine::networld::NetWorld::start(&spec).await {
+                Ok(n) => n,
+                Err(e) => return (Obs { error: Some(format!("harness: {}", e)), ..Default::default() }, vec![]),
+            };
+            let scripted = script(&c);
+            let _guard = scripted.install(&net.world);
+            let req = request_of(&c);
+            let obs = crate::props::tunnelreq::run_h3(&net, "main.x", &[req], Duration::from_millis(2500)).await.remove(0);
+            tokio::time::sleep(Duration::from_millis(20)).await;
+            (obs, scripted.events())
+        });
+    }
     let spec = CoreSpec {
         establishment_timeout: Duration::from_millis(ESTABLISHMENT_MS),
         ..CoreSpec::default()
@@ -431,6 +474,7 @@ impl Suite for ResponseSuite {
                     outcome,
                     mux_fails,
                     mux_auth,
+                    h3: false,
                 }
             })
             .boxed()
@@ -471,10 +515,49 @@ impl Suite for ResponseSuite {
     }
 }
 
+/// The same table for HTTP/3 requests over the real QUIC listener
+pub struct ResponseH3Suite;
+
+impl Suite for ResponseH3Suite {
+    type Case = Case;
+    fn name(&self) -> &'static str {
+        "final-response-h3"
+    }
+    fn rule(&self) -> String {
+        "the cases of suite final-response sent by a quiche HTTP/3 client to the real QUIC listener of Core::listen (scripted forwarder installed on that endpoint, establishment timeout 400 ms, real time, 2.5 s to answer); same oracle except for the time of the response; non-trivial = failure outcome or reserved / look-alike authority".into()
+    }
+    fn strategy(&self, t: Tier) -> BoxedStrategy<Case> {
+        ResponseSuite
+            .strategy(t)
+            .prop_map(|mut c| {
+                c.h3 = true;
+                if let Outcome::DelayedEcho(_) = c.outcome {
+                    c.outcome = Outcome::DelayedEcho(100);
+                }
+                c
+            })
+            .boxed()
+    }
+    fn cases(&self, tier: Tier) -> u64 {
+        tier.pick(640, 16_000)
+    }
+    fn classify(&self, c: &Case) -> Vec<&'static str> {
+        ResponseSuite.classify(c).into_iter().filter(|x| *x != "h1" && *x != "h2").collect()
+    }
+    fn required_classes(&self) -> Vec<&'static str> {
+        vec!["nontrivial", "reserved", "lookalike", "failure-outcome"]
+    }
+    fn check(&self, c: &Case) -> Verdict {
+        let (obs, events) = execute(c);
+        judge(c, &obs, &events)
+    }
+}
+
 pub fn run(ctx: &mut Ctx) {
     super::replay_corpus(ctx, replay);
     ctx.run_suite(&ResponseSuite);
-    ctx.assume("HTTP/3 is not driven in memory; the tunnel logic above the codec is shared with HTTP/1.1 and HTTP/2");
+    ctx.run_suite(&ResponseH3Suite);
+    ctx.assume("HTTP/3 runs in real time against the real QUIC listener with a 400 ms establishment timeout; the time of the response is judged on HTTP/1.1 and HTTP/2 only (virtual clock)");
     ctx.assume("a multiplexer whose creation fails after the 200 had to be sent is don't-care for the status (exactly one response still required)");
     ctx.assume("CONNECT with an Expect header is answered 417 by the codec before the tunnel channel and is excluded");
 }
@@ -482,6 +565,7 @@ pub fn run(ctx: &mut Ctx) {
 pub fn replay(ctx: &mut Ctx, suite: &str, case: &Value) -> bool {
     match suite {
         "final-response" => ctx.replay_suite(&ResponseSuite, case),
+        "final-response-h3" => ctx.replay_suite(&ResponseH3Suite, case),
         _ => false,
     }
 }
